@@ -435,6 +435,55 @@ def rule_variants(ctx, f):
     ctx.floor("C15-VARIANTS", n, 2, "hand-written enum reader/writer pairs with a variant switch in the writer")
 
 
+def rule_positional(ctx, f):
+    """hand-written pairs that store a struct as an array (Rectangle): element i written = the field the reader fills from element i"""
+    ctx.rule("C15-POS", "hand-written array-shaped pairs: the writer's i-th element is, unmodified, the field the reader fills from the i-th element")
+    n = 0
+    for b in f.bodies.values():
+        im = b.get("impl") or {}
+        if im.get("trait") != "object::ObjectWrite" or not b["id"].endswith("::to_primitive") or b.get("mac") or b["kind"] == "Closure":
+            continue
+        adt = im.get("self_adt")
+        if not adt or adt not in f.adts or f.adts[adt].get("kind") == "Enum":
+            continue
+        rb = f.body("<%s as object::Object>::from_primitive" % im["self"])
+        if rb is None or rb.get("mac"):
+            continue
+        arrays = [(i, s_) for i, j, s_ in F.stmts(b) if s_[0] == "assign" and s_[2][0] == "aggregate" and s_[2][1].get("k") == "array" and len(s_[2][2]) >= 2]
+        ragg = [(i, s_) for i, j, s_ in F.stmts(rb) if s_[0] == "assign" and s_[2][0] == "aggregate" and s_[2][1].get("adt") == adt and s_[2][1].get("fields")]
+        if len(arrays) != 1 or len(ragg) != 1:
+            continue
+        flr = Flow(rb)
+        rmap = {}
+        for fname, op in zip(ragg[0][1][2][1]["fields"], ragg[0][1][2][2]):
+            l = F.op_local(op)
+            for a in flr.origins(l) if l is not None else []:
+                if a[0] == "call" and last_seg(a[1]) == "index" and len(a[3]["args"]) == 2:
+                    c = F.const_int(a[3]["args"][1])
+                    if c is not None:
+                        rmap[c] = fname
+        if len(rmap) < 2:
+            continue
+        n += 1
+        defs = {}
+        for i, j, s_ in F.stmts(b):
+            if s_[0] == "assign" and len(s_[1]) == 1:
+                defs.setdefault(s_[1][0], []).append(s_[2])
+        for pos, op in enumerate(arrays[0][1][2][2]):
+            l = F.op_local(op)
+            fld = None
+            d = defs.get(l, []) if l is not None else []
+            if len(d) == 1 and d[0][0] == "use" and d[0][1][0] in ("copy", "move"):
+                pl = d[0][1][1]
+                if len(pl) >= 2 and pl[0] == 1 and pl[-1][0] == "field":
+                    fld = pl[-1][2]
+            ctx.check(fld is not None and rmap.get(pos) == fld, "C15-POS", "%s#element%d" % (adt, pos),
+                      "element %d of the written array is %s, the reader fills `%s` from element %d: a value read and written back changes"
+                      % (pos, ("the field `%s`" % fld) if fld else "a computed value (not a field of the object)", rmap.get(pos), pos), b["span"],
+                      detail="[%d] <-> %s" % (pos, rmap.get(pos)))
+    ctx.floor("C15-POS", n, 1, "array-shaped hand-written pairs (Rectangle)")
+
+
 def rule_absent(ctx, f):
     ctx.rule("C15-ABSENT", "Option::None and an empty HashMap are written as Null; derived writers skip Null values (so an absent optional stays absent)")
     for self_s, what in (("std::option::Option<T>", "None"), ("std::collections::HashMap<primitive::Name, V>", "empty map")):
@@ -495,6 +544,7 @@ def run(ctx):
     rule_enums(ctx, f)
     rule_hand(ctx, f)
     rule_variants(ctx, f)
+    rule_positional(ctx, f)
     rule_absent(ctx, f)
     return ctx.finish(
         "Static analysis of the macro-EXPANDED reader and writer impls in MIR: dictionary keys are extracted by tracing string constants into "
